@@ -236,39 +236,43 @@ type session struct {
 	conn      secs1.Connection
 	peer      *e4Peer
 	equip     bool
+	active    bool
 	dev       int
+	newConns  chan net.Conn      // harness ends of the pipes the connection dialled
+	listeners chan *pipeListener // listeners the connection opened, one per generation
 	mu        sync.Mutex
 	delivered [][]byte // HSMS header ++ body of every message the handler saw
 	notify    chan struct{}
 }
 
-func openSession(equip, active bool, dev int) (*session, error) {
-	a, b := net.Pipe()
-	s := &session{equip: equip, dev: dev, notify: make(chan struct{}, 1024)}
-	opts := []secs1.Option{secs1.WithDeviceID(uint16(dev)), secs1.WithT1(e2eT1), secs1.WithT2(e2eT2), secs1.WithT4(e2eT4),
-		secs1.WithRetryLimit(3)}
+func openSession(equip, active bool, dev int, t4 time.Duration) (*session, error) {
+	s := &session{equip: equip, active: active, dev: dev, notify: make(chan struct{}, 1024),
+		newConns: make(chan net.Conn, 16), listeners: make(chan *pipeListener, 16)}
+	opts := []secs1.Option{secs1.WithDeviceID(uint16(dev)), secs1.WithT1(e2eT1), secs1.WithT2(e2eT2), secs1.WithT4(t4),
+		secs1.WithRetryLimit(3), secs1.WithT5(200 * time.Millisecond),
+		secs1.WithConnectionOption(hsms.WithReconnectBackoff(20*time.Millisecond, 1.5))}
 	if equip {
 		opts = append(opts, secs1.WithEquipment())
 	} else {
 		opts = append(opts, secs1.WithHost())
 	}
-	handed := false
 	if active {
+		// every dial (the first one and each re-dial after a line drop) gets a fresh pipe; the
+		// harness's end of it is handed to attach()
 		opts = append(opts, secs1.WithActive(), secs1.WithDialer(func(ctx context.Context, _, _ string) (net.Conn, error) {
-			if handed {
-				<-ctx.Done()
+			a, b := net.Pipe()
+			select {
+			case s.newConns <- b:
+				return a, nil
+			case <-ctx.Done():
 				return nil, ctx.Err()
 			}
-			handed = true
-			return a, nil
 		}))
 	} else {
+		// every generation listens anew; attach() connects to the latest listener
 		opts = append(opts, secs1.WithPassive(), secs1.WithListener(func(context.Context, string, string) (net.Listener, error) {
 			l := &pipeListener{ch: make(chan net.Conn, 1), closed: make(chan struct{})}
-			if !handed {
-				handed = true
-				l.ch <- a
-			}
+			s.listeners <- l
 			return l, nil
 		}))
 	}
@@ -292,19 +296,67 @@ func openSession(equip, active bool, dev int) (*session, error) {
 		}
 	})
 	s.conn = conn
-	s.peer = newPeer(b, !equip)
 	ctx, cancel := context.WithTimeout(context.Background(), 10*time.Second)
 	defer cancel()
-	if err := conn.Open(ctx, hsms.OpenWaitSelected); err != nil {
+	if err := conn.Open(ctx, hsms.OpenBackground); err != nil {
 		return nil, err
 	}
-	for i := 0; conn.State() != hsms.SelectedState; i++ {
-		if i > 2000 {
-			return nil, errors.New("connection never reached Selected")
+	if err := s.attach(); err != nil {
+		return nil, err
+	}
+	return s, nil
+}
+
+// attach connects the harness's E4 peer to the connection's CURRENT generation (the pipe end of
+// the latest dial, or a fresh pipe into the latest listener) and waits for Selected.
+func (s *session) attach() error {
+	var b net.Conn
+	if s.active {
+		select {
+		case b = <-s.newConns:
+		case <-time.After(8 * time.Second):
+			return errors.New("the connection never dialled")
+		}
+	} else {
+		var l *pipeListener
+		select {
+		case l = <-s.listeners:
+		case <-time.After(8 * time.Second):
+			return errors.New("the connection never listened")
+		}
+		for more := true; more; { // the latest listener
+			select {
+			case l = <-s.listeners:
+			default:
+				more = false
+			}
+		}
+		var a net.Conn
+		a, b = net.Pipe()
+		select {
+		case l.ch <- a:
+		case <-l.closed:
+			return errors.New("listener closed before the peer connected")
+		}
+	}
+	s.peer = newPeer(b, !s.equip)
+	for i := 0; s.conn.State() != hsms.SelectedState; i++ {
+		if i > 4000 {
+			return errors.New("connection never reached Selected")
 		}
 		time.Sleep(time.Millisecond)
 	}
-	return s, nil
+	return nil
+}
+
+// reconnect drops the line from the peer's side (TCP close) and attaches a fresh peer to the
+// generation the connection brings up next.
+func (s *session) reconnect() error {
+	_ = s.peer.conn.Close()
+	for i := 0; s.conn.State() == hsms.SelectedState && i < 3000; i++ {
+		time.Sleep(time.Millisecond)
+	}
+	return s.attach()
 }
 
 func (s *session) close() {
@@ -629,6 +681,134 @@ func (s *session) inbound(c *vh.Ctx, sentinelSys byte) {
 	}
 }
 
+// inboundReconnect: inbound block sequences that SPAN A LINE DROP on one connection object. Each
+// connection generation has its own inbound assembler (fresh partial-message state, fresh
+// duplicate record): a partial message opened before the drop must not be completed by a block
+// arriving alone on the next line session, and a complete message on the new session is delivered
+// even if its header equals the last block accepted on the previous one. The session runs with a
+// long T4, so nothing here is explained by an inter-block timeout.
+func (s *session) inboundReconnect(c *vh.Ctx, sentinelSys byte, scenario int) {
+	r := c.Rng
+	type item struct {
+		reconnect bool
+		blk       e4Block
+		class     string
+	}
+	mk := func(nb int) []e4Block {
+		f := e4Fields{dev: s.dev, rbit: !s.equip, stream: 1 + r.Intn(8), fn: 1 + 2*r.Intn(60), wbit: r.Intn(4) == 0}
+		f.sys = [4]byte{3, byte(r.Intn(256)), byte(r.Intn(256)), byte(r.Intn(256))}
+		return e4Split(f, randBytes(c, (nb-1)*244+1+r.Intn(12)))
+	}
+	R := item{reconnect: true, class: "reconnect"}
+	blk := func(b e4Block, class string) item { return item{blk: b, class: class} }
+	var items []item
+	switch scenario {
+	case 0: // block 1 of 2, drop, block 2 alone: nothing may be delivered
+		m := mk(2)
+		items = []item{blk(m[0], "next"), R, blk(m[1], "continuation-after-drop")}
+	case 1: // complete single-block message, drop, the same header again: delivered twice
+		m := mk(1)
+		items = []item{blk(m[0], "next"), R, blk(m[0], "same-header-after-drop")}
+	case 2: // two of three blocks, drop, the third alone (dropped), then the whole message (delivered)
+		m := mk(3)
+		items = []item{blk(m[0], "next"), blk(m[1], "next"), R, blk(m[2], "continuation-after-drop"),
+			blk(m[0], "next"), blk(m[1], "next"), blk(m[2], "next")}
+	case 3: // the last block of a delivered 2-block message repeated after the drop, then a new message
+		m, n := mk(2), mk(1)
+		items = []item{blk(m[0], "next"), blk(m[1], "next"), R, blk(m[1], "same-header-after-drop"), blk(n[0], "next")}
+	default: // random mix
+		m := mk(1 + r.Intn(3))
+		idx := 0
+		for k := 3 + r.Intn(5); k > 0; k-- {
+			switch a := r.Intn(10); {
+			case a < 2:
+				items = append(items, R)
+			case a < 4 && idx > 0:
+				items = append(items, blk(m[idx-1], "dup"))
+			default:
+				if idx >= len(m) {
+					m, idx = mk(1+r.Intn(3)), 0
+				}
+				items = append(items, blk(m[idx], "next"))
+				idx++
+			}
+		}
+	}
+
+	base := s.deliveredCount()
+	ref := &e4Receiver{equip: s.equip, dev: s.dev}
+	var evs strings.Builder
+	var want [][]byte
+	nEv := 0
+	classes := ""
+	for _, it := range items {
+		classes += it.class + ","
+		c.Count("Y/ev=" + it.class)
+		if it.reconnect {
+			if err := s.reconnect(); err != nil {
+				c.Fail("the connection did not re-establish the line after a TCP drop", fmt.Sprintf("equip=%v active=%v: %v (%s)", s.equip, s.active, err, classes))
+				return
+			}
+			ref = &e4Receiver{equip: s.equip, dev: s.dev} // a new generation: fresh assembler state
+			evs.WriteString(" R")
+			nEv++
+			continue
+		}
+		if res := s.peer.sendRaw(e4Wire(it.blk)); res != 'A' {
+			c.Fail(fmt.Sprintf("a checksum-valid block was answered %q, not ACK (%s)", res, it.class), classes)
+			return
+		}
+		if f := ref.accept(0, 10, it.blk); f != nil {
+			want = append(want, f)
+		}
+		fmt.Fprintf(&evs, " 0 %s %s", hx(it.blk.hdr[:]), hx(it.blk.body))
+		nEv++
+	}
+	// sentinel: block 1 with the E-bit always starts (and here completes) a new message
+	sf := e4Fields{dev: s.dev, rbit: !s.equip, stream: 99, fn: 99, sys: [4]byte{0xEE, 0xEE, 0xEF, sentinelSys}, num: 1, ebit: true}
+	sblk := e4Block{hdr: e4Encode(sf)}
+	if res := s.peer.sendRaw(e4Wire(sblk)); res != 'A' {
+		c.Fail(fmt.Sprintf("sentinel block answered %q", res), classes)
+		return
+	}
+	sentinelFrame := ref.accept(0, 10, sblk)
+	deadline := time.Now().Add(10 * time.Second)
+	var got [][]byte
+	for {
+		got = s.deliveredSince(base)
+		if n := len(got); n > 0 && string(got[n-1]) == string(sentinelFrame) {
+			got = got[:n-1]
+			break
+		}
+		if time.Now().After(deadline) {
+			c.Fail("the sentinel message was never delivered to the handler", classes)
+			return
+		}
+		select {
+		case <-s.notify:
+		case <-time.After(20 * time.Millisecond):
+		}
+	}
+	s.peer.serve(30*time.Millisecond, 500*time.Millisecond)
+	rhs := fmt.Sprint(len(got))
+	for _, g := range got {
+		rhs += " " + hx(g)
+	}
+	line := fmt.Sprintf("Y %s %d %d%s | %s", vh.B01(s.equip), s.dev, nEv, evs.String(), rhs)
+	c.Case(line, line, true)
+	c.Count(fmt.Sprintf("Y/reconnect/scenario=%d/deliveries=%d", scenario, min(len(got), 4)))
+	ok := len(got) == len(want)
+	for i := 0; ok && i < len(got); i++ {
+		ok = string(got[i]) == string(want[i])
+	}
+	if !ok {
+		c.Fail("across a line drop: handler deliveries differ from the messages that arrived complete and in order on ONE line session ("+classes+")", line)
+	}
+	if st := s.conn.State(); st != hsms.SelectedState {
+		c.Fail(fmt.Sprintf("link not Selected after an inbound sequence with reconnects (state %v; %s)", st, classes), line)
+	}
+}
+
 func e2e(c *vh.Ctx) {
 	type roleT struct{ equip, active bool }
 	roles := []roleT{{true, false}, {false, true}, {true, true}, {false, false}}
@@ -639,7 +819,7 @@ func e2e(c *vh.Ctx) {
 	sys := uint32(0x01000000)
 	for ri, ro := range roles {
 		dev := []int{0, 1, 0x7FFF, 0x0123}[ri]
-		s, err := openSession(ro.equip, ro.active, dev)
+		s, err := openSession(ro.equip, ro.active, dev, e2eT4)
 		if err != nil {
 			c.Fail("cannot open a secs1 connection over net.Pipe", fmt.Sprintf("equip=%v active=%v: %v", ro.equip, ro.active, err))
 			continue
@@ -652,6 +832,21 @@ func e2e(c *vh.Ctx) {
 				s.inbound(c, byte(i))
 			}
 		}
+		s.close()
+		// a second session per role with a long T4 for the sequences that span a line drop
+		nR := 5 // every scenario once per role/mode combination
+		if c.Tier == "thorough" {
+			nR = 15
+		}
+		s2, err := openSession(ro.equip, ro.active, dev, 3*time.Second)
+		if err != nil {
+			c.Fail("cannot open a secs1 connection over net.Pipe", fmt.Sprintf("equip=%v active=%v: %v", ro.equip, ro.active, err))
+			continue
+		}
+		for i := 0; i < nR; i++ {
+			s2.inboundReconnect(c, byte(i), i%5)
+		}
+		s = s2
 		s.close()
 	}
 }
